@@ -218,6 +218,28 @@ def check_annotated(env, acc, max_photons):
             acc.nontriv("apair", keys[i], keys[j])
 
 
+def check_many_heralds(env, acc):
+    """More heralds than visible modes, on 9-12 modes in total: every choice of 3 visible positions."""
+    vis = [3, 1, 2]
+    for total in (9, 10, 12):
+        for pos in itertools.combinations(range(total), 3):
+            hm = [m for m in range(total) if m not in pos]
+            heralds = {m: (i % 3) for i, m in enumerate(reversed(hm))}          # keys in descending order
+            acc.tick("executions"); acc.tick("transitions")
+            full = add_heralds_to_state(lw.State(list(vis)), heralds)
+            want = [None] * total
+            for m, v in heralds.items():
+                want[m] = v
+            for m, v in zip(pos, vis):
+                want[m] = v
+            back = remove_heralds_from_state(full, list(heralds))
+            if list(full) != want or list(back) != vis:
+                acc.violation("herald_round_trip", {"scenario": "many_heralds", "total_modes": total, "visible_positions": pos,
+                                                    "seed": env.seed}, {"full": list(full), "back": list(back)})
+                return
+            acc.state("many_heralds", total, pos)
+
+
 def check_heralds(env, acc, maxlen):
     for L in range(0, maxlen + 1):
         for st in itertools.product([0, 1, 2], repeat=L):
@@ -305,6 +327,7 @@ def run(tier, seed):
     parts = [("states", lambda a: check_states(env, a, 3 if tier == "quick" else 5)),
              ("annotated", lambda a: check_annotated(env, a, 3 if tier == "quick" else 4)),
              ("heralds", lambda a: check_heralds(env, a, 3 if tier == "quick" else 4)),
+             ("many_heralds", lambda a: check_many_heralds(env, a)),
              ("conv", lambda a: check_conversions(env, a)),
              ("random", lambda a: check_random(env, a))]
 
@@ -335,5 +358,5 @@ def run(tier, seed):
 
 def replay(w, acc):
     env = Env(w["case"].get("seed", 0))
-    check_states(env, acc, 3); check_annotated(env, acc, 3); check_heralds(env, acc, 3)
+    check_states(env, acc, 3); check_annotated(env, acc, 3); check_heralds(env, acc, 3); check_many_heralds(env, acc)
     check_conversions(env, acc); check_random(env, acc)
